@@ -47,7 +47,11 @@ var loopsAllowedUsed = map[string]int{}
 // sendChain computes the functions on call paths from root to a call of the named sink:
 // members of the region reachable from root that contain the sink call or call a member.
 func (r *Run) sendChain(root *ssa.Function, sink string) map[*ssa.Function]bool {
-	region := r.P.CG.Reachable([]*ssa.Function{root}, nil)
+	region := r.P.CG.Reachable([]*ssa.Function{root}, func(e *Edge) bool {
+		// what the fan-out helper runs is reached through the call sites that hand it in
+		_, helper := hofAllowed[fnName(e.Caller)]
+		return helper
+	})
 	chain := map[*ssa.Function]bool{}
 	for fn := range region {
 		for _, e := range r.P.CG.Ext[fn] {
@@ -60,6 +64,11 @@ func (r *Run) sendChain(root *ssa.Function, sink string) map[*ssa.Function]bool 
 		changed = false
 		for fn := range region {
 			if chain[fn] {
+				continue
+			}
+			if _, helper := hofAllowed[fnName(fn)]; helper {
+				// the fan-out helper is transparent: the functions it is given are charged to
+				// the call sites that hand them in (hoarg edges); how often it runs them is R1
 				continue
 			}
 			for _, e := range r.P.CG.Out[fn] {
